@@ -110,7 +110,7 @@ def pair (k v : Bytes) : Bytes := le16 k.length ++ k ++ le16 v.length ++ v
 def addAll : Bytes → List (Bytes × Bytes) → Option Bytes
   | acc, [] => some acc
   | acc, (k, v) :: rest =>
-    if k.length > Extracted.ushrtMax ∨ v.length > Extracted.ushrtMax then none
+    if k.length > Extracted.C09.ushrtMax ∨ v.length > Extracted.C09.ushrtMax then none
     else addAll (acc ++ pair k v) rest
 
 inductive Res
@@ -126,7 +126,7 @@ def createEnv (env : List (Bytes × Bytes)) (bodyLen : Int) (pending : Bytes) : 
   match addAll [] env with
   | none => .status 400
   | some vars =>
-    if vars.length > Extracted.ushrtMax then .status 431
+    if vars.length > Extracted.C09.ushrtMax then .status 431
     else .ok (RawSt.startBody (encodeHeader vars) bodyLen pending)
 
 /-! receiving side -/
